@@ -133,6 +133,24 @@ def _is_remaining_accessor(g):
     return diff
 
 
+def _is_pure_scalar_function(g):
+    """a free / static function of scalar parameters with a scalar result that touches nothing else (`constexpr IdField idFieldOf(type)`):
+    the table evaluator and the predicate summaries read such a function as it stands, call by call"""
+    if g.rec and not g.raw.get("static"):
+        return False
+    rt = g.raw.get("rett") or {}
+    if rt.get("k") not in ("int", "enum", "bool") or rt.get("ref"):
+        return False
+    if not g.params or any((p["t"] or {}).get("k") not in ("int", "enum", "bool") or (p["t"] or {}).get("ref") for p in g.params):
+        return False
+    for x in g.nodes():
+        if x.get("k") in ("call", "construct", "member", "this", "new", "lambda", "un") and not (x.get("k") == "un" and x.get("op") in ("!", "-", "~", "+")):
+            return False
+        if x.get("k") == "ref" and x.get("dk") not in ("local", "param", "enumerator"):
+            return False
+    return True
+
+
 def _candidate(fb, g, vocab):
     if g is None or g.body is None or not g.cfg_raw or not g.raw.get("inrepo") or g.raw.get("templated") or g.raw.get("virtual"):
         return False
@@ -146,6 +164,8 @@ def _candidate(fb, g, vocab):
     if len(g.cfg_raw.get("blocks", [])) > MAX_BLOCKS:
         return False
     if _is_remaining_accessor(g):
+        return False
+    if _is_pure_scalar_function(g):
         return False
     for x in g.nodes():
         if x.get("k") == "decl" and any(v.get("static") for v in x.get("vars", [])):
